@@ -257,6 +257,22 @@ def _desugar_fn_values(facts):
 
     def visit(n):
         if isinstance(n, dict):
+            # `cond.then(|| body)`  ==>  `if cond { Some(body) } else { None }`
+            if n.get("k") == "MethodCall" and n.get("method") == "then" and len(n.get("args", [])) == 1:
+                rv = n["recv"]
+                r0 = rv
+                while isinstance(r0, dict) and r0.get("k") in ("DropTemps", "Use"):
+                    r0 = r0["x"]
+                cl = n["args"][0]
+                while isinstance(cl, dict) and cl.get("k") in ("DropTemps", "Use"):
+                    cl = cl["x"]
+                if isinstance(r0, dict) and r0.get("ty") == "bool" and isinstance(cl, dict) and cl.get("k") == "Closure" and not cl.get("params"):
+                    some = {"id": fresh(), "sp": n["sp"], "ty": n.get("ty"), "k": "Call", "synthetic": True, "f": {"id": fresh(), "sp": n["sp"], "ty": "?", "k": "Path", "res": {"res": "Def", "kind": "Ctor(Variant, Fn)", "path": "std::option::Option::Some", "krate": "core", "ctor_of": "Variant", "ctor_kind": "Fn", "ctor_path": "std::option::Option::Some"}, "qname": "Some"}, "args": [cl["body"]]}
+                    none = {"id": fresh(), "sp": n["sp"], "ty": n.get("ty"), "k": "Path", "synthetic": True, "res": {"res": "Def", "kind": "Ctor(Variant, Const)", "path": "std::option::Option::None", "krate": "core", "ctor_of": "Variant", "ctor_kind": "Const", "ctor_path": "std::option::Option::None"}, "qname": "None"}
+                    keep = {"id": n["id"], "sp": n["sp"], "ty": n.get("ty")}
+                    n.clear()
+                    n.update(keep)
+                    n.update({"k": "If", "cond": rv, "then": some, "else": none, "synthetic": True})
             if n.get("k") == "MethodCall" and n.get("method") in HOF_ARITY:
                 for i, a in enumerate(n.get("args", [])):
                     a0 = a
